@@ -133,14 +133,30 @@ def run(repo: Repo, chk: Check, thorough: bool = False) -> None:
         ok = len(a) == 2 and norm(a[1]) == ps[3] and (norm(a[0]) in curv or norm(a[0]) == 'self.builder.current')
         chk.ob('R07.2', f'{MV}._handleReExport :: moved to the current module under the exported name', ok, norm(c), repo.loc(hr.mod, c))
     ge = repo.func(f'{MV}._getCurrentModuleExports')
-    from ..cfg import if_branches
+    # scenario "the current scope is NOT a module": whatever can be returned in it is the empty list - a literal `[]`, or a local whose assignments that
+    # are possible in the scenario are all `[]` (either spelling: `if isinstance(...): ... else: exports = []` or `if not isinstance(...): return []`)
+    cfge = CFG(ge)
+
+    def not_module(e: ast.AST) -> Optional[bool]:
+        if isinstance(e, ast.Call) and call_name(e) == 'isinstance' and len(e.args) == 2 and norm(e.args[1]).endswith('Module'):
+            return False
+        return None
+
+    def empty_list(e: Optional[ast.AST]) -> bool:
+        return isinstance(e, ast.List) and not e.elts
     ok = False
-    for n in ge.walk():
-        if isinstance(n, ast.If):
-            t, yes, no = if_branches(n)
-            if isinstance(t, ast.Call) and call_name(t) == 'isinstance' and norm(t.args[1]) == 'model.Module' and \
-                    any(isinstance(s, ast.Assign) and isinstance(s.value, ast.List) and not s.value.elts for s in no):
-                ok = True
+    rets_ge = [r for r in ge.walk() if isinstance(r, ast.Return) and not excluded_by(cfge.scenario_facts(r), not_module)]
+    if rets_ge:
+        ok = True
+        for r in rets_ge:
+            if empty_list(r.value):
+                continue
+            if isinstance(r.value, ast.Name):
+                vals_s = [a.value for a in ge.walk() if isinstance(a, ast.Assign) and any(isinstance(t, ast.Name) and t.id == r.value.id for t in a.targets) and
+                          not excluded_by(cfge.scenario_facts(a), not_module)]
+                if vals_s and all(empty_list(v) for v in vals_s):
+                    continue
+            ok = False
     chk.ob('R07.2', f'{MV}._getCurrentModuleExports :: nothing is exported from class/function scopes', ok,
            'exports = [] unless the current scope is a module' if ok else 'imports inside classes could trigger a move', ge.loc)
     users = [f.qn for f in repo.funcs.values() for c in calls_in(f) if call_name(c) == '_handleReExport']
